@@ -4,9 +4,11 @@
 #   repository tests pass with it, the demo fails with it and passes without it, then runs the listed quick checks against it.
 set -u
 ID=$1; shift
-W=/tmp/seed-$ID
+# SEED_ROUND=2 evaluates /tmp/seed2-<id> into seeded/<id>-r2 (a second, independent change for the same property)
+R=${SEED_ROUND:-1}
+if [ "$R" = 1 ]; then W=/tmp/seed-$ID; SUF=""; else W=/tmp/seed$R-$ID; SUF="-r$R"; fi
 V=$(dirname "$(dirname "$(realpath "$0")")")
-D=$V/seeded/$ID
+D=$V/seeded/$ID$SUF
 mkdir -p "$D"
 cp "$W/SEED/patch.diff" "$D/patch.diff"
 for f in demo.cpp run_demo.sh notes.md; do [ -f "$W/SEED/$f" ] && cp "$W/SEED/$f" "$D/$f"; done
@@ -30,11 +32,11 @@ for c in "$@"; do
   first=$(echo "$out" | grep -A1 '^VIOLATION' | head -2 | tail -1 | cut -c1-300)
   if [ $rc = 1 ]; then echo "DETECTED by $c: $first"; res="$res{\"check\":\"$c\",\"detected\":true,\"first\":$(python3 -c 'import json,sys; print(json.dumps(sys.argv[1]))' "$first")},"; else echo "MISSED by $c (rc=$rc): $(echo "$out" | tail -1 | cut -c1-160)"; res="$res{\"check\":\"$c\",\"detected\":false},"; fi
 done
-python3 - "$ID" "$rc1" "$rc2" "$(cat $D/.baseline)" "[${res%,}]" <<'PY'
+python3 - "$ID$SUF" "$rc1" "$rc2" "$(cat $D/.baseline)" "[${res%,}]" <<'PY'
 import json,sys,os
 pid,rc1,rc2,base,res=sys.argv[1:6]
 d=os.path.join(os.path.dirname(os.path.dirname(os.path.abspath("/verif/tools/x"))),"seeded",pid)
-meta={"property":pid,"origin":"sub-agent given only the property text and a scratch worktree","repository_tests_with_change":base.strip(),
+meta={"property":pid[:3],"origin":"sub-agent given only the property text and a scratch worktree","repository_tests_with_change":base.strip(),
       "demo_exit_with_change":int(rc1),"demo_exit_without_change":int(rc2),"confirmed":int(rc1)!=0 and int(rc2)==0 and "60/60" in base,
       "ran":["tools/baseline.sh <worktree>","SEED/run_demo.sh with and without patch.diff","VERIF_REPO=<worktree> ./check <id> --tier quick"],"checks":json.loads(res)}
 old={}
